@@ -775,9 +775,9 @@ package reftable
 // G1 (C08): a lock path is removed or renamed only by the handle that created it.
 // G2 (C04, C05, C09): tables.list is replaced only from this handle's own lock file, and only by a list that extends
 // the current list with new tables or replaces one contiguous range of it by at most one table.
-//@ spec goodCommit(from string) bool = held[from] && from == listLock() && (isAppendOf(from) || isReplaceOf(from))
+//@ spec goodCommit(from string, a int, b int, k int) bool = held[from] && from == listLock() && (isAppendOf(from) || isReplaceWith(from, a, b, k))
 //@ spec isAppendOf(from string) bool = wLen[from] > listLen && (forall i int :: 0 <= i && i < listLen ==> wNames[from][i] == listNames[i])
-//@ spec isReplaceOf(from string) bool = exists a int, b int, k int :: 0 <= a && a <= b && b < listLen && (k == 0 || k == 1) && wLen[from] == listLen - (b - a + 1) + k && (forall i int :: 0 <= i && i < a ==> wNames[from][i] == listNames[i]) && (forall i int :: a + k <= i && i < wLen[from] ==> wNames[from][i] == listNames[i + (b - a + 1) - k])
+//@ spec isReplaceWith(from string, a int, b int, k int) bool = 0 <= a && a <= b && b < listLen && (k == 0 || k == 1) && wLen[from] == listLen - (b - a + 1) + k && (forall i int :: 0 <= i && i < a ==> wNames[from][i] == listNames[i]) && (forall i int :: a + k <= i && i < wLen[from] ==> wNames[from][i] == listNames[i + (b - a + 1) - k])
 
 //@ extern os.OpenFile
 //@   params name, flag, perm
@@ -794,16 +794,22 @@ package reftable
 //@   requires[G1] isLock(name) ==> held[name]
 //@   modifies held, ownsTmp, listNames, listLen
 //@   ensures !held[name] && !ownsTmp[name]
+//@   ensures old(held[name]) || old(ownsTmp[name]) ==> result == nil
 //@   ensures forall p string :: p != name ==> held[p] == old(held[p]) && ownsTmp[p] == old(ownsTmp[p])
 //@   ensures listStable()
 
+// ghost parameters a, b, k: the range [a,b] of the current list that a compaction replaces by k tables (witnesses,
+// supplied by the caller's contract; irrelevant for an addition)
 //@ extern os.Rename
 //@   params oldpath, newpath
+//@   ghostparams a, b, k
 //@   requires[G1] isLock(oldpath) ==> held[oldpath]
-//@   requires[G2] newpath == theListFile ==> goodCommit(oldpath)
-//@   modifies held, ownsTmp, listNames, listLen
+//@   requires[G2] newpath == theListFile ==> goodCommit(oldpath, a, b, k)
+//@   modifies held, ownsTmp, listNames, listLen, appends, commits
 //@   ensures result == nil
 //@   ensures !held[oldpath] && !ownsTmp[oldpath]
+//@   ensures appends == old(appends) + ((newpath == theListFile && old(isAppendOf(oldpath))) ? 1 : 0)
+//@   ensures commits == old(commits) + (newpath == theListFile ? 1 : 0)
 //@   ensures forall p string :: p != oldpath ==> held[p] == old(held[p]) && ownsTmp[p] == old(ownsTmp[p])
 //@   ensures newpath == theListFile ==> listLen == old(wLen[oldpath]) && listNames == old(wNames[oldpath])
 //@   ensures newpath != theListFile ==> listStable()
@@ -811,7 +817,7 @@ package reftable
 //@ extern io/ioutil.TempFile
 //@   params dir, pattern
 //@   modifies ownsTmp, fileOf, listNames, listLen
-//@   ensures result1 == nil && result0 != nil && fresh(result0) && ownsTmp[fileOf[result0]] && !old(ownsTmp[fileOf[result0]]) && !isLock(fileOf[result0]) && fileOf[result0] != theListFile
+//@   ensures result1 == nil && result0 != nil && fresh(result0) && ownsTmp[fileOf[result0]] && !old(ownsTmp[fileOf[result0]]) && !isLock(fileOf[result0]) && fileOf[result0] != theListFile && fileOf[result0] != ""
 //@   ensures forall p string :: p != fileOf[result0] ==> ownsTmp[p] == old(ownsTmp[p])
 //@   ensures forall f ref :: allocated(f) ==> fileOf[f] == old(fileOf[f])
 //@   ensures listStable()
@@ -824,6 +830,7 @@ package reftable
 //@ extern (*os.File).Close
 //@   params f
 //@   pure
+//@   ensures result == nil
 
 //@ extern (*os.File).Write
 //@   params f, b
@@ -946,7 +953,7 @@ package reftable
 //@ func (*Addition).Add
 //@   props C04 C05 C16 C08
 //@   requires addInv(tr) && tr.lockFileName != ""
-//@   modifies held, ownsTmp, fileOf, listNames, listLen, buflen, bufdata, tr.names, tr.names[:cap(tr.names)], tr.newTables, tr.newTables[:cap(tr.newTables)], tr.nextUpdateIndex, anyof(*Writer), anyof(*blockWriter), anyof(*paddedWriter)
+//@   modifies held, ownsTmp, fileOf, listNames, listLen, appends, commits, buflen, bufdata, tr.names, tr.names[:cap(tr.names)], tr.newTables, tr.newTables[:cap(tr.newTables)], tr.nextUpdateIndex, anyof(*Writer), anyof(*blockWriter), anyof(*paddedWriter)
 //@   ensures[inv-a] tr != nil && tr.stack == old(tr.stack) && wfStack(tr.stack) && tr.lockFileName == old(tr.lockFileName) && tr.lockFile == old(tr.lockFile)
 //@   ensures[inv-b] forall j int :: 0 <= j && j < len(tr.newTables) ==> !isLock(tr.newTables[j])
 //@   ensures[inv-sep] ref(tr.names) != ref(tr.newTables) || ref(tr.names) == 0
@@ -957,3 +964,121 @@ package reftable
 //@   ensures[no-temp-left] tmpSubset()
 //@   ensures[locks] heldSame()
 //@   ensures[failed-adds-nothing] result != nil ==> len(tr.newTables) == old(len(tr.newTables))
+
+// C04 (clauses 1, 3, 4): Commit replaces tables.list by the current list followed by this transaction's tables, from
+// its own lock file, while holding the lock; afterwards the transaction names no lock it does not hold.
+//@ func (*Addition).Commit
+//@   props C04 C05 C08 C16
+//@   requires addInv(tr) && (len(tr.newTables) > 0 ==> tr.lockFileName != "")
+//@   modifies held, ownsTmp, listNames, listLen, wNames, wLen, appends, commits, buflen, bufdata, tr.lockFile, tr.lockFileName, tr.newTables, tr.stack.stack, tr.stack.merged
+//@   ensures[inv] closeInv(tr)
+//@   ensures[committed-a] old(len(tr.newTables)) > 0 ==> appends == old(appends) + 1
+//@   ensures[committed-b] old(len(tr.newTables)) > 0 ==> tr.lockFileName == ""
+//@   ensures[committed-c] old(len(tr.newTables)) > 0 ==> !held[listLock()]
+//@   ensures[nothing-to-do] old(len(tr.newTables)) == 0 ==> appends == old(appends) && result == nil && heldSame() && tr.lockFileName == old(tr.lockFileName)
+//@   ensures[no-new-locks] heldSubset()
+//@   ensures[no-temp] tmpSubset()
+
+//@ ghost commits int
+
+// coarse, trusted for now: refined under C01/C14
+//@ func (*Writer).AddRef
+//@   trusted
+//@   modifies anyof(*Writer), anyof(*blockWriter), anyof(*paddedWriter)
+
+//@ func (*Writer).AddLog
+//@   trusted
+//@   modifies anyof(*Writer), anyof(*blockWriter), anyof(*paddedWriter), l.Message
+
+//@ func (*Writer).SetLimits
+//@   modifies w.minUpdateIndex, w.maxUpdateIndex
+//@   ensures w.minUpdateIndex == min && w.maxUpdateIndex == max
+
+// coarse protocol-level contract of the merge itself; the record-level step contracts are under C07/C13
+//@ func (*Stack).writeCompact
+//@   props C07
+//@   requires wfStack(st) && wr != nil && 0 <= first && first <= last && last < len(st.stack)
+//@   modifies buflen, bufdata, st.Stats.EntriesWritten, anyof(*Writer), anyof(*blockWriter), anyof(*paddedWriter), anyof(*tableIter), anyof(*indexedTableRefIter), anyof(*filteringRefIterator), anyof(*blockIter)
+//@   loop 1 invariant first <= i && (subtabs == nil || fresh(subtabs))
+
+// C16: on success the temp file is handed to the caller; on failure nothing temporary is left.
+//@ func (*Stack).compactLocked
+//@   props C16 C05
+//@   requires wfStack(st) && 0 <= first && first <= last && last < len(st.stack)
+//@   modifies held, ownsTmp, fileOf, listNames, listLen, buflen, bufdata, st.Stats.EntriesWritten, anyof(*Writer), anyof(*blockWriter), anyof(*paddedWriter), anyof(*tableIter), anyof(*indexedTableRefIter), anyof(*filteringRefIterator), anyof(*blockIter)
+//@   ensures listStable() && wfStack(st) && heldSame()
+//@   ensures[temp-handed-over] result1 == nil ==> ownsTmp[result0] && !isLock(result0) && result0 != theListFile && (forall p string :: p != result0 ==> (ownsTmp[p] ==> old(ownsTmp[p])))
+//@   ensures[no-temp-on-failure] result1 != nil ==> tmpSubset() && result0 == ""
+//@   ensures result1 == nil ==> result0 != ""
+
+//@ spec subLocksOK(subtableLocks []string) bool = (forall k int :: 0 <= k && k < len(subtableLocks) ==> held[subtableLocks[k]] && isLock(subtableLocks[k]) && subtableLocks[k] != listLock()) && (forall k int, m int :: 0 <= k && k < m && m < len(subtableLocks) ==> subtableLocks[k] != subtableLocks[m])
+//@ spec lockVar(lockFileName string) bool = (lockFileName == "" ==> !held[listLock()]) && (lockFileName != "" ==> lockFileName == listLock() && held[listLock()])
+
+//@ spec heldChar(subtableLocks []string) bool = forall p string :: held[p] ==> old(held[p]) || p == listLock() || (exists k int :: 0 <= k && k < len(subtableLocks) && subtableLocks[k] == p)
+//@ spec delOK(st *Stack, deleteOnSuccess []string, first int) bool = forall k int :: 0 <= k && k < len(deleteOnSuccess) ==> deleteOnSuccess[k] == pathJoin(theDir, st.stack[first + k].name)
+//@ spec crInv(st *Stack, lockFileName string, subtableLocks []string, deleteOnSuccess []string, first int, last int) bool = wfStack(st) && namesMatch(st) && lockFileName == listLock() && held[listLock()] && !old(held[listLock()]) && subLocksOK(subtableLocks) && heldChar(subtableLocks) && delOK(st, deleteOnSuccess, first) && len(deleteOnSuccess) == last - first + 1 && 0 <= first && first <= last && last < len(st.stack)
+
+// deferred: releases tables.list.lock if this call still holds it
+//@ func (*Stack).compactRange$1
+//@   inline
+
+// deferred: releases the table locks this call took
+//@ func (*Stack).compactRange$2
+//@   inline
+//@   loop 1 invariant -1 <= rangeindex && subtableLocks == old(subtableLocks) && held[listLock()] == old(held[listLock()]) && listLen >= 0 && (old(held[listLock()]) ==> listLen == old(listLen) && listNames == old(listNames))
+//@   loop 1 invariant forall k int :: rangeindex < k && k < len(subtableLocks) ==> held[subtableLocks[k]]
+//@   loop 1 invariant forall k int :: 0 <= k && k < len(subtableLocks) ==> isLock(subtableLocks[k]) && subtableLocks[k] != listLock()
+//@   loop 1 invariant forall k int, m int :: 0 <= k && k < m && m < len(subtableLocks) ==> subtableLocks[k] != subtableLocks[m]
+//@   loop 1 invariant forall p string :: held[p] ==> old(held[p])
+//@   loop 1 invariant forall k int :: 0 <= k && k <= rangeindex ==> !held[subtableLocks[k]]
+//@   loop 1 invariant tmpSubset()
+
+// C04/C05/C08/C09/C16/C17 for one compaction attempt:
+//  - every lock it takes it releases, whatever happens (G1 at each Remove/Rename, heldSubset at return);
+//  - no temp file survives; a stale handle commits nothing (G2 needs the list re-checked under the lock);
+//  - the new list is the old one with tables [first,last] replaced by at most one table;
+//  - if it reports success for a non-trivial range it has committed exactly one replacement (strict progress).
+//@ func (*Stack).compactRange
+//@   props C04 C05 C08 C09 C16 C17
+//@   requires wfStack(st) && !held[listLock()]
+//@   requires (first < last || expiration != nil) ==> 0 <= first && first <= last && last < len(st.stack)
+//@   modifies held, ownsTmp, fileOf, listNames, listLen, wNames, wLen, appends, commits, buflen, bufdata, st.stack, st.merged, st.Stats.Attempts, st.Stats.EntriesWritten, anyof(*Writer), anyof(*blockWriter), anyof(*paddedWriter), anyof(*tableIter), anyof(*indexedTableRefIter), anyof(*filteringRefIterator), anyof(*blockIter)
+//@   callsite os.Rename 2 ghost a = first; b = last; k = (emptyTable ? 0 : 1)
+//@   ensures[locks-released] heldSubset()
+//@   ensures[no-temp] tmpSubset()
+//@   ensures[no-transaction] appends == old(appends)
+//@   ensures[progress] result0 && (first < last || expiration != nil) ==> commits == old(commits) + 1
+//@   ensures[failure-commits-nothing] !result0 ==> commits == old(commits)
+//@   ensures wfStack(st)
+//@   loop 1 invariant[a] first <= i && i <= last + 1 && wfStack(st) && namesMatch(st) && st.stack == old(st.stack) && lockFileName == listLock() && held[listLock()] && !old(held[listLock()])
+//@   loop 1 invariant[b] len(subtableLocks) == i - first && len(deleteOnSuccess) == i - first && (subtableLocks == nil || fresh(subtableLocks)) && (deleteOnSuccess == nil || fresh(deleteOnSuccess)) && (ref(subtableLocks) != ref(deleteOnSuccess) || ref(subtableLocks) == 0)
+//@   loop 1 invariant[c] subLocksOK(subtableLocks)
+//@   loop 1 invariant[d] heldChar(subtableLocks)
+//@   loop 1 invariant[e] delOK(st, deleteOnSuccess, first)
+//@   loop 1 invariant[f] tmpSubset() && appends == old(appends) && commits == old(commits)
+//@   loop 2 invariant[a] 0 <= i && i <= first && len(names) == i && (names == nil || fresh(names)) && (forall k int :: 0 <= k && k < i ==> names[k] == st.stack[k].name)
+//@   loop 2 invariant[p1] wfStack(st) && namesMatch(st) && st.stack == old(st.stack) && appends == old(appends) && commits == old(commits)
+//@   loop 2 invariant[p2] lockFileName == listLock() && held[listLock()] && !old(held[listLock()])
+//@   loop 2 invariant[p3] subLocksOK(subtableLocks)
+//@   loop 2 invariant[p4] heldChar(subtableLocks)
+//@   loop 2 invariant[p5a] delOK(st, deleteOnSuccess, first)
+//@   loop 2 invariant[p5b] len(deleteOnSuccess) == last - first + 1
+//@   loop 2 invariant[p5c] 0 <= first && first <= last && last < len(st.stack)
+//@   loop 2 invariant[sep] ref(names) == 0 || (ref(names) != ref(subtableLocks) && ref(names) != ref(deleteOnSuccess))
+//@   loop 2 invariant[t] forall p string :: ownsTmp[p] ==> old(ownsTmp[p])
+//@   loop 3 invariant[a] last + 1 <= i && i <= len(st.stack) && len(names) == first + (emptyTable ? 0 : 1) + (i - (last + 1)) && (names == nil || fresh(names))
+//@   loop 3 invariant[b] forall k int :: 0 <= k && k < first ==> names[k] == st.stack[k].name
+//@   loop 3 invariant[c] !emptyTable ==> names[first] == fn
+//@   loop 3 invariant[d] forall k int :: first + (emptyTable ? 0 : 1) <= k && k < len(names) ==> names[k] == st.stack[k + (last - first + 1) - (emptyTable ? 0 : 1)].name
+//@   loop 3 invariant[p1] wfStack(st) && namesMatch(st) && st.stack == old(st.stack) && appends == old(appends) && commits == old(commits)
+//@   loop 3 invariant[p2] lockFileName == listLock() && held[listLock()] && !old(held[listLock()])
+//@   loop 3 invariant[p3] subLocksOK(subtableLocks)
+//@   loop 3 invariant[p4] heldChar(subtableLocks)
+//@   loop 3 invariant[p5a] delOK(st, deleteOnSuccess, first)
+//@   loop 3 invariant[p5b] len(deleteOnSuccess) == last - first + 1
+//@   loop 3 invariant[p5c] 0 <= first && first <= last && last < len(st.stack)
+//@   loop 3 invariant[sep] ref(names) == 0 || (ref(names) != ref(subtableLocks) && ref(names) != ref(deleteOnSuccess))
+//@   loop 3 invariant[t] forall p string :: ownsTmp[p] ==> old(ownsTmp[p])
+//@   loop 4 invariant[a] -1 <= rangeindex && lockFileName == "" && !held[listLock()] && wfStack(st) && appends == old(appends) && commits == old(commits) + 1
+//@   loop 4 invariant[c] subLocksOK(subtableLocks) && heldChar(subtableLocks) && delOK(st, deleteOnSuccess, first) && st.stack == old(st.stack)
+//@   loop 4 invariant[t] forall p string :: ownsTmp[p] ==> old(ownsTmp[p])
